@@ -16,6 +16,7 @@ const (
 	queueDirHashLength = 8
 	idFileName         = ".id"
 	xattrBufferID      = "user.hybridbufferID" // FIXME: deprecated, remove this
+	maxFileNameLength  = 255                   // NAME_MAX of the usual file systems
 )
 
 func makeBufferQueueDir(parentLogger logger.Logger, rootPath string, bufferID string) string {
@@ -28,6 +29,10 @@ func makeBufferQueueDir(parentLogger logger.Logger, rootPath string, bufferID st
 		// if buffer ID is not the same after sanitization, it would still get unique dir due to hash
 		hash := util.MD5ToHexdigest(bufferID)
 		path = filepath.Join(rootPath, dirname+"."+hash[len(hash)-queueDirHashLength:])
+		if len(dirname)+1+queueDirHashLength > maxFileNameLength {
+			// the ID does not fit into a file name: keep a prefix and tell such queues apart by the full hash (the ID itself is in .id)
+			path = filepath.Join(rootPath, dirname[:maxFileNameLength-1-len(hash)]+"."+hash)
+		}
 	} else {
 		path = rootPath
 	}
